@@ -32,6 +32,13 @@ def _grid_case(region, shape, spacing, adjust, pixel, extra, mesh, kind):
 
 
 def corpus():
+    dangerous = [_line_case(0.1, 0.7, k, None, "spacing", False, "corpus-decimal-bounds") for k in (38, 68, 75)] + \
+                [_line_case(0.1, 0.7, None, 0.6 / k, "spacing", False, "corpus-decimal-bounds") for k in (37, 67, 74)] + \
+                [_grid_case((0.1, 0.7, -0.3, 0.3), (75, 38), None, "spacing", False, None, True, "corpus-decimal-bounds")]
+    return dangerous + _corpus()
+
+
+def _corpus():
     cs = []
     for pixel in (False, True):
         for adjust in ("spacing", "region"):
@@ -65,6 +72,15 @@ def generate(rng, tier):
         ext = rng.randint(0, 24) / 4.0
         sp = rng.randint(1, 16) / 4.0
         cs.append(_line_case(start, start + ext, None, sp, rng.choice(["spacing", "region"]), rng.random() < 0.5, "lattice"))
+    dec = [0.1, 0.7, -0.3, 2.4, 3.3, -7.9, 10.1, 100.7, 0.05, 1 / 3.0, 2 / 3.0]
+    for _ in range(700 if tier == "quick" else 12000):
+        # bounds that are not binary fractions, many nodes: both bounds must still be hit EXACTLY (adjust='spacing' / a given size)
+        start = rng.choice(dec) + rng.randint(-5, 5)
+        stop = start + rng.choice([0.6, 1.1, 2.3, 0.07, 17.9, rng.randint(1, 40) / 10.0])
+        if rng.random() < 0.6:
+            cs.append(_line_case(start, stop, rng.randint(2, 120), None, "spacing", rng.random() < 0.3, "line-size-decimal"))
+        else:
+            cs.append(_line_case(start, stop, None, (stop - start) / rng.randint(1, 100), "spacing", rng.random() < 0.3, "line-spacing-decimal"))
     for _ in range(n):
         u = rng.random()
         if u < 0.35:
